@@ -134,7 +134,7 @@ func c03Run(c c03Case, st *vlib.Stats) string {
 	defer func() { storage.VerifHook = nil }()
 	eng, err := mk.Start(dir)
 	if err == nil {
-		if err = eng.Exec("CREATE DATABASE " + DBName); err == nil {
+		if err = CreateDatabases(eng); err == nil {
 			err = eng.Exec("USE " + DBName)
 		}
 	}
